@@ -95,7 +95,7 @@ def main():
             m['checks'].append({
               "property_id":i,
               "quick_cmd":f"./check {i} --tier quick",
-              "thorough_cmd":f"./check {i} --tier thorough",
+              "thorough_cmd":("./check_c12_thorough.sh" if i=="C12" else f"./check {i} --tier thorough"),
               "evidence_file":f"/verif/evidence/{i}.json",
               "replay_cmd_template":f"./check {i} --replay {{path}}",
               "engine":"vcheck",
